@@ -1184,6 +1184,7 @@ theorem group_runs {j : Jump} {gap : List UInt8} {body : List Item} {k d pc c : 
     | none =>
       rw [hsb] at hb
       obtain ⟨st', he2, hok2⟩ := hb
+      simp only [hsb]
       refine ⟨st', ?_, hok0.trans hok2 (Nat.le_refl _)⟩
       rw [execT_push hS (st := ⟨pc, c, sv⟩) hpush]
       rw [he, show pc + 1 + 1 = pc + 2 by omega, he2]
@@ -1191,12 +1192,514 @@ theorem group_runs {j : Jump} {gap : List UInt8} {body : List Item} {k d pc c : 
       obtain ⟨cb, wb⟩ := rb
       rw [hsb] at hb
       obtain ⟨sv2, he2, hok2, hw2, _⟩ := hb
+      simp only [hsb]
       refine ⟨sv2, ?_, hok0.trans hok2 (Nat.le_refl _), hw2, by simp only [addRva_eq_wadd32]; exact wadd32_lt _ _⟩
       rw [execT_push hS (st := ⟨pc, c, sv⟩) hpush]
       rw [he, show pc + 1 + 1 = pc + 2 by omega, he2, hterm cb sv2]
-      simp only [skipAmt_push, addRva_eq_wadd32]
-      rfl
+      simp only [skipAmt_push, addRva_eq_wadd32, Nat.add_assoc]
 
 end Main2
+
+
+section Main3
+variable {S : ScanI} (hS : S.WF) {U : List Atom}
+include hS
+
+omit hS in
+theorem IsTerm.cast {a b pcR : Nat} (h : IsTerm S U a pcR) (e : a = b) : IsTerm S U b pcR := by subst e; exact h
+
+omit hS in
+theorem peekOk_false {peek : Option Nat} {v : Nat} (h : peekOk peek v = false) : ∃ b, peek = some b ∧ v ≠ b := by
+  cases peek with
+  | none => simp [peekOk] at h
+  | some b => exact ⟨b, rfl, by simpa [peekOk] using h⟩
+
+/-- `exec_many`'s loop (with the `memchr` shortcut) finds the first candidate at which the rest of the
+frame matches -/
+theorem manyT_runs (hB : ∀ b, Atom.byte b ∈ U → b < 256) {k pcM len pcR cursor off : Nat} {r : List Item}
+    (hterm : IsTerm S U (pcM + len) pcR)
+    (hr : ∀ c1 sv1, c1 < 4294967296 → Runs S U k pcM len 0 c1 sv1 (sem S k r c1)) :
+    ∀ (n i : Nat) (st0 : St),
+      (∀ j, i ≤ j → j < i + n → S.read 1 (wadd32 cursor j) = some (byteAt S.mem (off + j))) →
+      match firstSome (fun j => sem S k r (wadd32 cursor j)) n i with
+      | some (c', w) => ∃ sv', manyT S.mem (fun s => execT S U s 0xff 0) cursor pcM off (peekByte (U.drop pcM)) n i st0
+            = (true, ⟨pcR, c', sv'⟩) ∧ SaveOK k st0.save sv' ∧ Writes w sv' ∧ c' < 4294967296
+      | none => ∃ st', manyT S.mem (fun s => execT S U s 0xff 0) cursor pcM off (peekByte (U.drop pcM)) n i st0
+            = (false, st') ∧ SaveOK k st0.save st'.save := by
+  intro n
+  induction n with
+  | zero => intro i st0 _; exact ⟨st0, rfl, SaveOK.refl _ _⟩
+  | succ n ih =>
+    intro i st0 hcoh
+    have hrun := hr (wadd32 cursor i) st0.save (wadd32_lt _ _)
+    have hcoh' : ∀ j, i + 1 ≤ j → j < i + 1 + n → S.read 1 (wadd32 cursor j) = some (byteAt S.mem (off + j)) :=
+      fun j h1 h2 => hcoh j (by omega) (by omega)
+    simp only [firstSome, manyT]
+    cases hpk : peekOk (peekByte (U.drop pcM)) (byteAt S.mem (off + i)) with
+    | true =>
+      simp only [if_true]
+      have hst : ({ st0 with cursor := wadd32 cursor i, pc := pcM } : St) = ⟨pcM, wadd32 cursor i, st0.save⟩ := rfl
+      rw [hst]
+      cases hs : sem S k r (wadd32 cursor i) with
+      | none =>
+        rw [hs] at hrun
+        obtain ⟨st', he, hok⟩ := hrun
+        simp only [he]
+        have := ih (i + 1) st' hcoh'
+        cases hf : firstSome (fun j => sem S k r (wadd32 cursor j)) n (i + 1) with
+        | none =>
+          rw [hf] at this
+          obtain ⟨st2, h1, h2⟩ := this
+          exact ⟨st2, h1, hok.trans h2 (Nat.le_refl _)⟩
+        | some x =>
+          obtain ⟨c', w⟩ := x
+          rw [hf] at this
+          obtain ⟨sv2, h1, h2, h3, h4⟩ := this
+          exact ⟨sv2, h1, hok.trans h2 (Nat.le_refl _), h3, h4⟩
+      | some x =>
+        obtain ⟨c', w⟩ := x
+        rw [hs] at hrun
+        obtain ⟨sv', he, hok, hw, hc'⟩ := hrun
+        simp only [he, hterm c' sv']
+        exact ⟨sv', rfl, hok, hw, hc'⟩
+    | false =>
+      simp only [Bool.false_eq_true, if_false]
+      obtain ⟨b, hb, hne⟩ := peekOk_false hpk
+      have hrd : S.read 1 (wadd32 cursor i) ≠ some b := by
+        rw [hcoh i (Nat.le_refl _) (by omega)]
+        intro h; exact hne (Option.some.inj h)
+      have hfail := peek_fail hS hB hrd _ pcM st0.save rfl hb
+      have hs : sem S k r (wadd32 cursor i) = none := by
+        cases hs : sem S k r (wadd32 cursor i) with
+        | none => rfl
+        | some x =>
+          obtain ⟨c', w⟩ := x
+          rw [hs] at hrun
+          obtain ⟨sv', he, _⟩ := hrun
+          rw [he, hterm c' sv'] at hfail
+          cases hfail
+      simp only [hs]
+      exact ih (i + 1) st0 hcoh'
+
+/-- the optional `Rangext` in front of a `Skip` / `Many` -/
+theorem run_rangext {n pc c : Nat} {sv : Array Nat} (hA : At U pc (rangext n)) :
+    execT S U ⟨pc, c, sv⟩ 0xff 0 = execT S U ⟨pc + (rangext n).length, c, sv⟩ 0xff (n / 256 * 256) := by
+  unfold rangext at hA ⊢
+  split
+  · next h =>
+    simp only [h, if_true] at hA
+    have hp : U[pc]? = some (.rangext (n / 256)) := hA.head
+    rw [execT_step_some hS (st := ⟨pc, c, sv⟩) hp rfl (st' := ⟨pc + 1, c, sv⟩) (m' := 0xff) (e' := n / 256 * 256) rfl]
+    rfl
+  · next h =>
+    have : n / 256 * 256 = 0 := by omega
+    rw [this]; rfl
+
+omit hS in
+theorem comp_range (k : Nat) (pend : Option Nat) (a b : Nat) (r : List Item) :
+    comp k pend (.range a b :: r) =
+      (if a = 0 then flush pend else flush pend ++ rangext a ++ [.skip (a % 256)])
+        ++ rangext (b - a) ++ .many ((b - a) % 256) :: comp k none r := by
+  rw [comp]
+
+/-- `[a-b]` followed by the rest of the frame -/
+theorem range_runs (hB : ∀ b, Atom.byte b ∈ U → b < 256) (hC : Coherent S) {a b k pc c : Nat} {sv : Array Nat}
+    {pend : Option Nat} {E : Nat} {r : List Item} {pcR : Nat} (hab : a < b)
+    (hA : At U pc (comp k pend (.range a b :: r))) (hg : PendGood pend E) (hc : c < 4294967296)
+    (hterm : IsTerm S U (pc + (comp k pend (.range a b :: r)).length) pcR)
+    (hr : ∀ pcM, pcM + (comp k none r).length = pc + (comp k pend (.range a b :: r)).length →
+      At U pcM (comp k none r) →
+      ∀ c1 sv1, c1 < 4294967296 → Runs S U k pcM (comp k none r).length 0 c1 sv1 (sem S k r c1)) :
+    Runs S U k pc (comp k pend (.range a b :: r)).length E c sv (sem S k (.range a b :: r) (cur pend E c)) := by
+  have hc0 : cur pend E c < 4294967296 := cur_lt hc
+  generalize hc0' : cur pend E c = c0 at hc0
+  -- positions
+  let lo := if a = 0 then flush pend else flush pend ++ rangext a ++ [Atom.skip (a % 256)]
+  have hcomp := comp_range k pend a b r
+  rw [hcomp] at hA hterm hr ⊢
+  -- phase 1: the lower bound
+  have h1 : execT S U ⟨pc, c, sv⟩ 0xff E = execT S U ⟨pc + lo.length, wadd32 c0 a, sv⟩ 0xff 0 := by
+    by_cases ha : a = 0
+    · have hlo : lo = flush pend := by simp [lo, ha]
+      rw [hlo, ha, wadd32_zero hc0, ← hc0']
+      have : At U pc (flush pend) := by
+        have := hA.left.left
+        simpa [ha] using this
+      exact run_flush hS this hg
+    · have hlo : lo = flush pend ++ rangext a ++ [Atom.skip (a % 256)] := by simp [lo, ha]
+      have hAlo : At U pc (flush pend ++ rangext a ++ [Atom.skip (a % 256)]) := by
+        have := hA.left.left
+        simpa [ha] using this
+      rw [hlo, run_flush hS hAlo.left.left hg, hc0', run_rangext hS hAlo.left.right]
+      have hp : U[pc + (flush pend).length + (rangext a).length]? = some (.skip (a % 256)) := by
+        have := hAlo.right.head
+        simpa [Nat.add_assoc] using this
+      have hamt : skipAmt S (a / 256 * 256) (a % 256) = a := by
+        unfold skipAmt
+        have : a / 256 * 256 + a % 256 = a := by omega
+        rw [this]; simp [ha]
+      rw [execT_step_some hS (st := ⟨pc + (flush pend).length + (rangext a).length, c0, sv⟩) hp rfl
+        (st' := ⟨pc + (flush pend).length + (rangext a).length + 1, wadd32 c0 a, sv⟩) (m' := 0xff) (e' := 0)
+        (by simp only [step, hamt])]
+      simp [Nat.add_assoc]
+  -- phase 2: Rangext, Many
+  have hAm : At U (pc + lo.length) (rangext (b - a) ++ .many ((b - a) % 256) :: comp k none r) := by
+    have h2 : At U pc (lo ++ (rangext (b - a) ++ .many ((b - a) % 256) :: comp k none r)) := by
+      rw [← List.append_assoc]; exact hA
+    exact h2.right
+  have h2 := run_rangext hS (c := wadd32 c0 a) (sv := sv) hAm.left
+  have hpm : U[pc + lo.length + (rangext (b - a)).length]? = some (.many ((b - a) % 256)) := hAm.right.head
+  have hAr : At U (pc + lo.length + (rangext (b - a)).length + 1) (comp k none r) := hAm.right.tail
+  have hlen : (lo ++ rangext (b - a) ++ Atom.many ((b - a) % 256) :: comp k none r).length =
+      lo.length + (rangext (b - a)).length + 1 + (comp k none r).length := by
+    simp only [List.length_append, List.length_cons]; omega
+  have hlim : (b - a) / 256 * 256 + (b - a) % 256 = b - a := by omega
+  have hrr := hr (pc + lo.length + (rangext (b - a)).length + 1) (by rw [hlen]; omega) hAr
+  have hterm' : IsTerm S U (pc + lo.length + (rangext (b - a)).length + 1 + (comp k none r).length) pcR :=
+    hterm.cast (by rw [hlen]; omega)
+  simp only [sem, addRva_eq_wadd32]
+  have h3 := execT_many hS (st := ⟨pc + lo.length + (rangext (b - a)).length, wadd32 c0 a, sv⟩)
+    (m := 0xff) (e := (b - a) / 256 * 256) hpm
+  rw [hlim] at h3
+  have hne : ¬ (b - a = 0) := by omega
+  simp only [hne, if_false] at h3
+  cases hsl : S.slice (wadd32 c0 a) with
+  | none =>
+    simp only [hsl] at h3 ⊢
+    exact ⟨_, by rw [h1, h2, h3], SaveOK.refl _ _⟩
+  | some ol =>
+    obtain ⟨off, len⟩ := ol
+    simp only [hsl] at h3 ⊢
+    have hm := manyT_runs hS hB (cursor := wadd32 c0 a) (off := off) hterm' hrr (min (b - a) len) 0
+      ⟨pc + lo.length + (rangext (b - a)).length + 1, wadd32 c0 a, sv⟩
+      (fun j _ hj => hC _ _ _ j hsl (by omega))
+    cases hf : firstSome (fun i => sem S k r (wadd32 (wadd32 c0 a) i)) (min (b - a) len) 0 with
+    | none =>
+      rw [hf] at hm
+      obtain ⟨st', hm1, hm2⟩ := hm
+      exact ⟨st', by rw [h1, h2, h3, hm1], hm2⟩
+    | some x =>
+      obtain ⟨c', w⟩ := x
+      rw [hf] at hm
+      obtain ⟨sv', hm1, hm2, hm3, hm4⟩ := hm
+      refine ⟨sv', ?_, hm2, hm3, hm4⟩
+      rw [h1, h2, h3, hm1, hterm c' sv']
+
+end Main3
+
+
+section Main4
+variable {S : ScanI} (hS : S.WF) {U : List Atom}
+include hS
+
+omit hS in
+theorem hfr_tail {it : Item} {r : List Item} {x y pcR : Nat}
+    (h : openRange (it :: r) = false ∨ IsTerm S U x pcR) (e : x = y) :
+    openRange r = false ∨ IsTerm S U y pcR := by
+  rcases h with h | h
+  · left; simp only [openRange, Bool.or_eq_false_iff] at h; exact h.2
+  · right; exact h.cast e
+
+omit hS in
+theorem wf_cons {d : Nat} {it : Item} {r : List Item} (h : wfItems d (it :: r) = true) :
+    wfItem d it = true ∧ wfItems d r = true := by
+  simpa [wfItems] using h
+
+omit hS in
+theorem cl_cons {it : Item} {r : List Item} (h : closedLast (it :: r) = true) :
+    closedLastItem it = true ∧ closedLast r = true := by
+  simpa [closedLast] using h
+
+end Main4
+
+
+section Main5
+variable {S : ScanI} (hS : S.WF) {U : List Atom}
+include hS
+
+/-- an item compiled to one non-control atom, followed by the rest -/
+theorem simple_case {it : Item} {r : List Item} {a : Atom} {k d : Nat} {pend : Option Nat} {E pc c : Nat} {sv : Array Nat}
+    (h : simpleAtom k it = some a) (hwf : wfItem d it = true)
+    (hA : At U pc (comp k pend (it :: r))) (hg : PendGood pend E) (hc : c < 4294967296)
+    (ih : ∀ pc1 c1 sv1, pc1 = pc + (flush pend).length + 1 → At U pc1 (comp (slotsItem k it) none r) → c1 < 4294967296 →
+      Runs S U (slotsItem k it) pc1 (comp (slotsItem k it) none r).length 0 c1 sv1 (sem S (slotsItem k it) r c1)) :
+    Runs S U k pc (comp k pend (it :: r)).length E c sv (sem S k (it :: r) (cur pend E c)) := by
+  have hnr : ∀ x y, it ≠ .range x y := by
+    intro x y hxy; subst hxy; simp [simpleAtom] at h
+  have hcomp := comp_simple h pend r
+  have hA' := hA
+  rw [hcomp] at hA'
+  refine runs_cons hS hnr hcomp hA hg ?_ ?_
+  · exact runs_simple hS h hwf hA'.left.right.head (cur_lt hc)
+  · intro c1 sv1 hc1
+    exact ih _ c1 sv1 rfl (by simpa [Nat.add_assoc] using hA'.right) hc1
+
+mutual
+theorem comp_runs (hB : ∀ b, Atom.byte b ∈ U → b < 256) (hC : Coherent S) :
+    ∀ (items : List Item) (k d : Nat) (pend : Option Nat) (E pc c : Nat) (sv : Array Nat) (pcR : Nat),
+    wfItems d items = true → closedLast items = true → At U pc (comp k pend items) → PendGood pend E →
+    c < 4294967296 → (openRange items = false ∨ IsTerm S U (pc + (comp k pend items).length) pcR) →
+    Runs S U k pc (comp k pend items).length E c sv (sem S k items (cur pend E c))
+  | [], k, d, pend, E, pc, c, sv, pcR, _, _, hA, hg, hc, _ => by
+    simp only [comp, sem] at hA ⊢
+    have := Runs.flush hS (k := k) (len := 0) (sv := sv) (c := c) (res := some (cur pend E c, [])) hA hg
+      ⟨sv, rfl, SaveOK.refl _ _, Writes.nil _, cur_lt hc⟩
+    simpa using this
+  | .ws s :: r, k, d, pend, E, pc, c, sv, pcR, hwf, hcl, hA, hg, hc, hfr => by
+    have hcomp : comp k pend (.ws s :: r) = comp k pend r := by rw [comp]
+    have hsem : sem S k (.ws s :: r) (cur pend E c) = sem S k r (cur pend E c) := by
+      rw [sem_cons S k _ r _ (by intro a b h; cases h)]; simp [semItem, slotsItem, thenRes_nil]
+    rw [hcomp] at hA hfr ⊢
+    rw [hsem]
+    exact comp_runs hB hC r k d pend E pc c sv pcR (wf_cons hwf).2 (cl_cons hcl).2 hA hg hc (hfr_tail hfr rfl)
+  | .str bs :: r, k, d, pend, E, pc, c, sv, pcR, hwf, hcl, hA, hg, hc, hfr => by
+    by_cases hbs : bs = []
+    · subst hbs
+      have hcomp : comp k pend (.str [] :: r) = comp k pend r := by rw [comp]; simp
+      have hsem : sem S k (.str [] :: r) (cur pend E c) = sem S k r (cur pend E c) := by
+        rw [sem_cons S k _ r _ (by intro a b h; cases h)]; simp [semItem, slotsItem, thenRes_nil, matchBytes]
+      rw [hcomp] at hA hfr ⊢
+      rw [hsem]
+      exact comp_runs hB hC r k d pend E pc c sv pcR (wf_cons hwf).2 (cl_cons hcl).2 hA hg hc (hfr_tail hfr rfl)
+    · have hcomp : comp k pend (.str bs :: r) =
+          flush pend ++ (bs.map UInt8.toNat).map Atom.byte ++ comp (slotsItem k (.str bs)) none r := by
+        rw [comp]; simp [hbs, slotsItem, List.map_map, Function.comp_def]
+      have hA' := hA
+      rw [hcomp] at hA'
+      refine runs_cons hS (by intro a b h; cases h) hcomp hA hg ?_ ?_
+      · have := run_bytes hS (U := U) k (bs.map UInt8.toNat) (pc + (flush pend).length) (cur pend E c) sv
+          hA'.left.right (by intro b hb; obtain ⟨x, _, rfl⟩ := List.mem_map.1 hb; exact x.toNat_lt) (cur_lt hc)
+        simpa [semItem] using this
+      · intro c1 sv1 hc1
+        have hl : (comp k pend (.str bs :: r)).length =
+            (flush pend).length + ((bs.map UInt8.toNat).map Atom.byte).length + (comp (slotsItem k (.str bs)) none r).length := by
+          rw [hcomp]; simp only [List.length_append]
+        exact comp_runs hB hC r _ d none 0 _ c1 sv1 pcR (wf_cons hwf).2 (cl_cons hcl).2
+          (by simpa [Nat.add_assoc] using hA'.right) rfl hc1 (hfr_tail hfr (by rw [hl]; simp only [List.length_map]; omega))
+  | .any :: r, k, d, pend, E, pc, c, sv, pcR, hwf, hcl, hA, hg, hc, hfr => by
+    have hsem : sem S k (.any :: r) (cur pend E c) = sem S k r (wadd32 (cur pend E c) 1) := by
+      rw [sem_cons S k _ r _ (by intro a b h; cases h)]; simp [semItem, slotsItem, thenRes_nil, addRva_eq_wadd32]
+    rw [hsem]
+    cases pend with
+    | none =>
+      have hcomp : comp k none (.any :: r) = comp k (some 1) r := by rw [comp]
+      rw [hcomp] at hA hfr ⊢
+      simp only [PendGood] at hg
+      subst hg
+      have := comp_runs hB hC r k d (some 1) 0 pc c sv pcR (wf_cons hwf).2 (cl_cons hcl).2 hA (by simp [PendGood]) hc
+        (hfr_tail hfr rfl)
+      simpa [cur] using this
+    | some n =>
+      by_cases hm : n ≠ 0 ∧ n < 255
+      · have hcomp : comp k (some n) (.any :: r) = comp k (some (n + 1)) r := by rw [comp]; simp [hm]
+        rw [hcomp] at hA hfr ⊢
+        have := comp_runs hB hC r k d (some (n + 1)) E pc c sv pcR (wf_cons hwf).2 (cl_cons hcl).2 hA
+          (by simp only [PendGood]; omega) hc (hfr_tail hfr rfl)
+        simpa [cur, wadd32_wadd32, Nat.add_assoc] using this
+      · have hcomp : comp k (some n) (.any :: r) = .skip n :: comp k (some 1) r := by rw [comp]; simp [hm]
+        rw [hcomp] at hA hfr ⊢
+        have h1 := run_flush hS (pend := some n) (E := E) (c := c) (sv := sv) (pc := pc)
+          (by intro i a ha; exact hA i a (by cases i <;> simp_all [flush])) hg
+        have := comp_runs hB hC r k d (some 1) 0 (pc + 1) (cur (some n) E c) sv pcR (wf_cons hwf).2 (cl_cons hcl).2
+          hA.tail (by simp [PendGood]) (cur_lt hc)
+          (hfr_tail hfr (by simp only [List.length_cons]; omega))
+        have h2 : cur (some 1) 0 (cur (some n) E c) = wadd32 (cur (some n) E c) 1 := by simp [cur]
+        rw [h2] at this
+        exact Runs.of_eq h1 (by simp [flush]; omega) this
+  | .skip n :: r, k, d, pend, E, pc, c, sv, pcR, hwf, hcl, hA, hg, hc, hfr => by
+    have hsem : sem S k (.skip n :: r) (cur pend E c) = sem S k r (wadd32 (cur pend E c) n) := by
+      rw [sem_cons S k _ r _ (by intro a b h; cases h)]; simp [semItem, slotsItem, thenRes_nil, addRva_eq_wadd32]
+    rw [hsem]
+    by_cases hn : n = 0
+    · subst hn
+      have hcomp : comp k pend (.skip 0 :: r) = comp k pend r := by rw [comp]; simp
+      rw [hcomp] at hA hfr ⊢
+      rw [wadd32_zero (cur_lt hc)]
+      exact comp_runs hB hC r k d pend E pc c sv pcR (wf_cons hwf).2 (cl_cons hcl).2 hA hg hc (hfr_tail hfr rfl)
+    · have hcomp : comp k pend (.skip n :: r) = flush pend ++ rangext n ++ comp k (some (n % 256)) r := by
+        rw [comp]; simp [hn]
+      rw [hcomp] at hA hfr ⊢
+      have h1 := run_flush hS (E := E) (c := c) (sv := sv) hA.left.left hg
+      have h2 := run_rangext hS (c := cur pend E c) (sv := sv) hA.left.right
+      have hl : (flush pend ++ rangext n ++ comp k (some (n % 256)) r).length =
+          (flush pend).length + (rangext n).length + (comp k (some (n % 256)) r).length := by
+        simp only [List.length_append]
+      have := comp_runs hB hC r k d (some (n % 256)) (n / 256 * 256) (pc + (flush pend).length + (rangext n).length)
+        (cur pend E c) sv pcR (wf_cons hwf).2 (cl_cons hcl).2 (by simpa [Nat.add_assoc] using hA.right)
+        (by simp only [PendGood]; omega) (cur_lt hc) (hfr_tail hfr (by rw [hl]; omega))
+      have h3 : cur (some (n % 256)) (n / 256 * 256) (cur pend E c) = wadd32 (cur pend E c) n := by
+        simp only [cur]; congr 1; omega
+      rw [h3] at this
+      exact Runs.of_eq (h1.trans h2) (by rw [hl]; omega) this
+  | .range a b :: r, k, d, pend, E, pc, c, sv, pcR, hwf, hcl, hA, hg, hc, hfr => by
+    have hab : a < b := by
+      have := (wf_cons hwf).1
+      simp [wfItem] at this; exact this.1
+    have hterm : IsTerm S U (pc + (comp k pend (.range a b :: r)).length) pcR := by
+      rcases hfr with h | h
+      · simp [openRange, openRangeItem] at h
+      · exact h
+    refine range_runs hS hB hC hab hA hg hc hterm ?_
+    intro pcM hpcM hAr c1 sv1 hc1
+    exact comp_runs hB hC r k d none 0 pcM c1 sv1 pcR (wf_cons hwf).2 (cl_cons hcl).2 hAr rfl hc1
+      (Or.inr (hterm.cast hpcM.symm))
+  | .byte b :: r, k, d, pend, E, pc, c, sv, pcR, hwf, hcl, hA, hg, hc, hfr =>
+    simple_case hS (it := .byte b) rfl (wf_cons hwf).1 hA hg hc fun pc1 c1 sv1 hpc1 hAr hc1 =>
+      comp_runs hB hC r _ d none 0 pc1 c1 sv1 pcR (wf_cons hwf).2 (cl_cons hcl).2 hAr rfl hc1
+        (hfr_tail hfr (by rw [comp_simple (it := .byte b) rfl, hpc1]; simp only [List.length_append, List.length_cons, List.length_nil]; omega))
+  | .jump j :: r, k, d, pend, E, pc, c, sv, pcR, hwf, hcl, hA, hg, hc, hfr =>
+    simple_case hS (it := .jump j) rfl (wf_cons hwf).1 hA hg hc fun pc1 c1 sv1 hpc1 hAr hc1 =>
+      comp_runs hB hC r _ d none 0 pc1 c1 sv1 pcR (wf_cons hwf).2 (cl_cons hcl).2 hAr rfl hc1
+        (hfr_tail hfr (by rw [comp_simple (it := .jump j) rfl, hpc1]; simp only [List.length_append, List.length_cons, List.length_nil]; omega))
+  | .save :: r, k, d, pend, E, pc, c, sv, pcR, hwf, hcl, hA, hg, hc, hfr =>
+    simple_case hS (it := .save) rfl (wf_cons hwf).1 hA hg hc fun pc1 c1 sv1 hpc1 hAr hc1 =>
+      comp_runs hB hC r _ d none 0 pc1 c1 sv1 pcR (wf_cons hwf).2 (cl_cons hcl).2 hAr rfl hc1
+        (hfr_tail hfr (by rw [comp_simple (it := .save) rfl, hpc1]; simp only [List.length_append, List.length_cons, List.length_nil]; omega))
+  | .aligned n :: r, k, d, pend, E, pc, c, sv, pcR, hwf, hcl, hA, hg, hc, hfr =>
+    simple_case hS (it := .aligned n) rfl (wf_cons hwf).1 hA hg hc fun pc1 c1 sv1 hpc1 hAr hc1 =>
+      comp_runs hB hC r _ d none 0 pc1 c1 sv1 pcR (wf_cons hwf).2 (cl_cons hcl).2 hAr rfl hc1
+        (hfr_tail hfr (by rw [comp_simple (it := .aligned n) rfl, hpc1]; simp only [List.length_append, List.length_cons, List.length_nil]; omega))
+  | .readI w :: r, k, d, pend, E, pc, c, sv, pcR, hwf, hcl, hA, hg, hc, hfr =>
+    simple_case hS (it := .readI w) rfl (wf_cons hwf).1 hA hg hc fun pc1 c1 sv1 hpc1 hAr hc1 =>
+      comp_runs hB hC r _ d none 0 pc1 c1 sv1 pcR (wf_cons hwf).2 (cl_cons hcl).2 hAr rfl hc1
+        (hfr_tail hfr (by rw [comp_simple (it := .readI w) rfl, hpc1]; simp only [List.length_append, List.length_cons, List.length_nil]; omega))
+  | .readU w :: r, k, d, pend, E, pc, c, sv, pcR, hwf, hcl, hA, hg, hc, hfr =>
+    simple_case hS (it := .readU w) rfl (wf_cons hwf).1 hA hg hc fun pc1 c1 sv1 hpc1 hAr hc1 =>
+      comp_runs hB hC r _ d none 0 pc1 c1 sv1 pcR (wf_cons hwf).2 (cl_cons hcl).2 hAr rfl hc1
+        (hfr_tail hfr (by rw [comp_simple (it := .readU w) rfl, hpc1]; simp only [List.length_append, List.length_cons, List.length_nil]; omega))
+  | .zero :: r, k, d, pend, E, pc, c, sv, pcR, hwf, hcl, hA, hg, hc, hfr =>
+    simple_case hS (it := .zero) rfl (wf_cons hwf).1 hA hg hc fun pc1 c1 sv1 hpc1 hAr hc1 =>
+      comp_runs hB hC r _ d none 0 pc1 c1 sv1 pcR (wf_cons hwf).2 (cl_cons hcl).2 hAr rfl hc1
+        (hfr_tail hfr (by rw [comp_simple (it := .zero) rfl, hpc1]; simp only [List.length_append, List.length_cons, List.length_nil]; omega))
+  | .group j gap body :: r, k, d, pend, E, pc, c, sv, pcR, hwf, hcl, hA, hg, hc, hfr => by
+    have hcomp : comp k pend (.group j gap body :: r) =
+        flush pend ++ (.push j.push :: j.atom :: (comp k none body ++ [.pop])) ++
+          comp (slotsItem k (.group j gap body)) none r := by
+      rw [comp]; simp [slotsItem, List.append_assoc]
+    have hwfb : wfItems (d + 1) body = true := by
+      have := (wf_cons hwf).1
+      simp [wfItem] at this; exact this.2
+    have hclb : closedLast body = true := by
+      have := (cl_cons hcl).1
+      simpa [closedLastItem] using this
+    have hA' := hA
+    rw [hcomp] at hA'
+    have hAc := hA'.left.right
+    have hl : (comp k pend (.group j gap body :: r)).length =
+        (flush pend).length + (2 + (comp k none body).length + 1) + (comp (slotsItem k (.group j gap body)) none r).length := by
+      rw [hcomp]; simp only [List.length_append, List.length_cons, List.length_nil]; omega
+    refine runs_cons hS (by intro a b h; cases h) hcomp hA hg ?_ ?_
+    · refine group_runs hS (d := d) hAc (cur_lt hc) ?_
+      intro t sv1 ht
+      have hpop : U[pc + (flush pend).length + 2 + (comp k none body).length]? = some .pop := by
+        have := hAc.tail.tail.right.head
+        simpa [Nat.add_assoc] using this
+      exact comp_runs hB hC body k (d + 1) none 0 (pc + (flush pend).length + 2) t sv1 _ hwfb hclb
+        (by simpa [Nat.add_assoc] using hAc.tail.tail.left) rfl ht (Or.inr (IsTerm.pop hS hpop))
+    · intro c1 sv1 hc1
+      exact comp_runs hB hC r _ d none 0 _ c1 sv1 pcR (wf_cons hwf).2 (cl_cons hcl).2
+        (by simpa [Nat.add_assoc] using hA'.right) rfl hc1
+        (hfr_tail hfr (by rw [hl]; simp only [List.length_cons, List.length_append, List.length_nil]; omega))
+  | .alt bodies :: r, k, d, pend, E, pc, c, sv, pcR, hwf, hcl, hA, hg, hc, hfr => by
+    have hcomp : comp k pend (.alt bodies :: r) =
+        flush pend ++ compAlts k bodies ++ comp (slotsItem k (.alt bodies)) none r := by
+      rw [comp]; simp [slotsItem]
+    have hwfb : bodies ≠ [] ∧ wfAlts d bodies = true := by
+      have := (wf_cons hwf).1
+      simp [wfItem] at this
+      exact ⟨by intro h; simp [h] at this, this.2⟩
+    have hclb : openRangeLast bodies = false ∧ closedLastAlts bodies = true := by
+      have := (cl_cons hcl).1
+      simpa [closedLastItem] using this
+    have hA' := hA
+    rw [hcomp] at hA'
+    have hl : (comp k pend (.alt bodies :: r)).length =
+        (flush pend).length + (compAlts k bodies).length + (comp (slotsItem k (.alt bodies)) none r).length := by
+      rw [hcomp]; simp only [List.length_append]
+    refine runs_cons hS (by intro a b h; cases h) hcomp hA hg ?_ ?_
+    · simp only [semItem]
+      exact alts_runs hB hC bodies k d _ _ sv hwfb.1 hwfb.2 hclb.2 hclb.1 hA'.left.right (cur_lt hc)
+    · intro c1 sv1 hc1
+      exact comp_runs hB hC r _ d none 0 _ c1 sv1 pcR (wf_cons hwf).2 (cl_cons hcl).2
+        (by simpa [Nat.add_assoc] using hA'.right) rfl hc1 (hfr_tail hfr (by rw [hl]; omega))
+theorem alts_runs (hB : ∀ b, Atom.byte b ∈ U → b < 256) (hC : Coherent S) :
+    ∀ (bodies : List (List Item)) (k d pc c : Nat) (sv : Array Nat), bodies ≠ [] → wfAlts d bodies = true →
+    closedLastAlts bodies = true → openRangeLast bodies = false → At U pc (compAlts k bodies) → c < 4294967296 →
+    Runs S U k pc (compAlts k bodies).length 0 c sv (semAlts S k bodies c)
+  | [], _, _, _, _, _, hne, _, _, _, _, _ => absurd rfl hne
+  | [b], k, d, pc, c, sv, _, hwf, hcl, hop, hA, hc => by
+    have hwfb : wfItems d b = true := by simpa [wfAlts] using hwf
+    have hclb : closedLast b = true := by simpa [closedLastAlts] using hcl
+    have hopb : openRange b = false := by simpa [openRangeLast] using hop
+    simp only [compAlts] at hA ⊢
+    have hnop : U[pc]? = some .nop := hA.head
+    have h1 : execT S U ⟨pc, c, sv⟩ 0xff 0 = execT S U ⟨pc + 1, c, sv⟩ 0xff 0 :=
+      execT_step_some hS (st := ⟨pc, c, sv⟩) hnop rfl rfl
+    have := comp_runs hB hC b k d none 0 (pc + 1) c sv 0 hwfb hclb hA.tail rfl hc (Or.inl hopb)
+    have h2 : semAlts S k [b] c = sem S k b c := by
+      simp only [semAlts]
+      cases sem S k b c <;> rfl
+    rw [h2]
+    exact Runs.of_eq h1 (by simp only [List.length_cons]; omega) this
+  | b :: b' :: bs, k, d, pc, c, sv, _, hwf, hcl, hop, hA, hc => by
+    have hwfb : wfItems d b = true ∧ wfAlts d (b' :: bs) = true := by
+      simpa [wfAlts] using hwf
+    have hclb : closedLast b = true ∧ closedLastAlts (b' :: bs) = true := by
+      simpa [closedLastAlts] using hcl
+    have hopb : openRangeLast (b' :: bs) = false := by simpa [openRangeLast] using hop
+    have hcomp : compAlts k (b :: b' :: bs) =
+        .case ((comp k none b).length + 1) :: (comp k none b ++ .brk (compAlts k (b' :: bs)).length :: compAlts k (b' :: bs)) := by
+      rw [compAlts]
+      intro h; cases h
+    rw [hcomp] at hA ⊢
+    have hcase : U[pc]? = some (.case ((comp k none b).length + 1)) := hA.head
+    have hbrk : U[pc + 1 + (comp k none b).length]? = some (.brk (compAlts k (b' :: bs)).length) := hA.tail.right.head
+    have hArest : At U (pc + 1 + (comp k none b).length + 1) (compAlts k (b' :: bs)) := hA.tail.right.tail
+    have hb := comp_runs hB hC b k d none 0 (pc + 1) c sv _ hwfb.1 hclb.1 hA.tail.left rfl hc
+      (Or.inr (IsTerm.brk hS hbrk))
+    have hcs := execT_case hS (st := ⟨pc, c, sv⟩) (m := 0xff) (e := 0) hcase
+    have hsa : semAlts S k (b :: b' :: bs) c =
+        match sem S k b c with
+        | some r => some r
+        | none => semAlts S k (b' :: bs) c := by rw [semAlts]; rfl
+    rw [hsa]
+    have hlen : (Atom.case ((comp k none b).length + 1) ::
+        (comp k none b ++ Atom.brk (compAlts k (b' :: bs)).length :: compAlts k (b' :: bs))).length =
+        1 + (comp k none b).length + 1 + (compAlts k (b' :: bs)).length := by
+      simp only [List.length_cons, List.length_append]; omega
+    rw [hlen]
+    cases hs : sem S k b c with
+    | some x =>
+      obtain ⟨c', w⟩ := x
+      rw [show cur none 0 c = c from rfl, hs] at hb
+      obtain ⟨sv', he, hok, hw, hc'⟩ := hb
+      refine ⟨sv', ?_, hok, hw, hc'⟩
+      rw [hcs, he, IsTerm.brk hS hbrk c' sv']
+      simp only [Nat.add_assoc]
+    | none =>
+      rw [show cur none 0 c = c from rfl, hs] at hb
+      obtain ⟨st', he, hok⟩ := hb
+      have ih := alts_runs hB hC (b' :: bs) k d (pc + 1 + (comp k none b).length + 1) c st'.save (by simp) hwfb.2 hclb.2
+        hopb hArest hc
+      have he2 : execT S U ⟨pc, c, sv⟩ 0xff 0 =
+          execT S U ⟨pc + 1 + (comp k none b).length + 1, c, st'.save⟩ 0xff 0 := by
+        rw [hcs, he]
+        simp only [Nat.add_assoc]
+      simp only
+      cases hs2 : semAlts S k (b' :: bs) c with
+      | none =>
+        rw [hs2] at ih
+        obtain ⟨st2, h1, h2⟩ := ih
+        exact ⟨st2, he2.trans h1, hok.trans h2 (Nat.le_refl _)⟩
+      | some y =>
+        obtain ⟨c2, w2⟩ := y
+        rw [hs2] at ih
+        obtain ⟨sv2, h1, h2, h3, h4⟩ := ih
+        refine ⟨sv2, ?_, hok.trans h2 (Nat.le_refl _), h3, h4⟩
+        rw [he2, h1]
+        simp only [Nat.add_assoc]
+end
+
+end Main5
 
 end Pelite.PatSem
